@@ -13,7 +13,7 @@
 (* call violates; the outcome is allowed iff the set is empty.  ClauseProp *)
 (* maps each clause to the listed properties it is part of.                *)
 (***************************************************************************)
-EXTENDS Codec, SpanOps
+EXTENDS Codec, SpanOps, RegSeq
 
 VARIABLES used, cfg, ncalls
 apiVars == <<used, cfg, ncalls>>
@@ -81,6 +81,7 @@ ClauseProp ==
     span_inblock   |-> {"C06"},
     span_conform   |-> {"DRIFT"},
     reg_mutex      |-> {"C08"},
+    reg_conform    |-> {"DRIFT"},
     rt_ok          |-> {"C01"},
     rt_n           |-> {"C01"},
     rt_val         |-> {"C01"} ]
@@ -129,7 +130,8 @@ IsProto(obs, tid) == obs.out = "err" /\ obs.err.cls = "proto" /\ obs.err.tid = t
 GenericWF(in) == Skip(TSTRUCT, in, 1, 100000) > 0
 
 \* allocation allowance: proportional to the input plus a constant
-AllocBound(n) == 4096 * n + 1048576
+\* (TLC integers are 32-bit: beyond 500 000 input bytes the bound is the largest value the driver reports)
+AllocBound(n) == IF n >= 500000 THEN 2147483647 ELSE 4096 * n + 1048576
 
 \* a decode that panicked / crashed / hung: never allowed (C05); if the input was a well-formed
 \* message for the type it is also a failure to accept it (C03)
@@ -212,6 +214,7 @@ JReject(line, prev) ==
 \* Their own contract: Pretouch accepts anything and returns nil, the setters return their
 \* argument, the statistics are zero.  That no codec result depends on them is stated by the
 \* structure of this module: no J* operator reads cfg.
+\* (arguments and returned values are decimal strings: the whole int range, beyond TLC's 32 bits)
 JLegacy(line) ==
   LET obs == line.obs IN
   [ cls |-> "Legacy/" \o line.call \o ">" \o obs.out,
@@ -245,10 +248,13 @@ JWalk(line, objin) ==
             rs[i].nocopy =>
               IF rs[i].len = 0 THEN rs[i].off < 0          \* a zero-length value does not reference the buffer
               ELSE /\ rs[i].cap = rs[i].len
-                   /\ Len(rs[i].keys) > 0 /\ ToString(rs[i].obj) \in DOMAIN objin
-                   /\ LET o == objin[ToString(rs[i].obj)]
-                          lc == Locate(o.ty, o.in, 1, rs[i].keys) IN
-                      lc.ok /\ lc.off = rs[i].off /\ lc.len = rs[i].len,
+                   /\ ToString(rs[i].obj) \in DOMAIN objin
+                   /\ LET o == objin[ToString(rs[i].obj)] IN
+                      IF Len(rs[i].keys) > 0
+                      THEN LET lc == Locate(o.ty, o.in, 1, rs[i].keys) IN lc.ok /\ lc.off = rs[i].off /\ lc.len = rs[i].len
+                      \* reached through a container (no field path): a view that starts right after a length
+                      \* prefix holding exactly its length
+                      ELSE rs[i].off >= 4 /\ rs[i].off + rs[i].len <= Len(o.in) /\ S32(o.in, rs[i].off - 3) = rs[i].len,
          "nocopy_exact") ]
 
 JRecheck(line) ==
@@ -298,6 +304,14 @@ HookFold(evs, i, acc) ==
 JHooks(line, sp) ==
   LET r == HookFold(line.obs.events, 1, [sp |-> sp, holder |-> 0, fail |-> {}]) IN
   [fail |-> r.fail, cls |-> "Hooks>" \o line.obs.out, sp |-> r.sp]
+
+\* Registry events of a step (recorded whenever the library is built with the hooks): every lock section
+\* is replayed through the sequential registry model of RegSeq.  rg: the model's registry state.
+JReg(line, rg) ==
+  LET r == RegStep(rg, line) IN
+  [fail |-> If(~r.drift, "reg_conform"),
+   cls |-> IF ~r.judged THEN "Reg>state-unknown" ELSE IF r.drift THEN "Reg>drift" ELSE "Reg>conforms",
+   rg |-> r.rg, kinds |-> r.kinds]
 
 \* ---- concurrent sections (C08) --------------------------------------------------------
 \* The calls made inside a concurrent section are ordinary lines, judged like sequential calls
